@@ -52,6 +52,7 @@ class Effects:
         self._ce_cache: dict = {}
         self._flows: dict = {}
         self._fresh: dict = {}
+        self._mut_elem = None
         self._taint: dict = {}
         self._parents: dict = {}
         self._callers = None
@@ -102,6 +103,8 @@ class Effects:
                     return roots(e.func.value, 'alias')
                 if cn in ('getattr',) and e.args:
                     return roots(e.args[0], 'alias')
+                if cn == 'pop' and isinstance(e.func, ast.Attribute) and len(e.args) <= 1:
+                    return roots(e.func.value, 'elem')        # an element taken off a list (walk stacks): still a node of that tree
                 if cn in ('reversed', 'list', 'tuple', 'iter', 'enumerate', 'zip', 'sorted') and e.args:
                     if mode != 'elem':
                         return set()
@@ -226,6 +229,78 @@ class Effects:
                 if r:
                     yield n, r
 
+    def elem_mutating(self, cal: FuncInfo) -> set:
+        """Parameters of `cal` whose *elements* it (transitively) modifies, as opposed to the container object itself: `stack.pop()` and
+        `stack[i] = x` change the list, `a = stack.pop(); a.ctx = ...` changes a node that was in it.  A caller that hands such a
+        parameter a fresh list of its own nodes (`body[start:stop]`) has its tree modified."""
+        if self._mut_elem is None:
+            self._mut_elem = {}
+            funcs = [f for f in self.repo.all_funcs() if not isinstance(f.node, ast.Lambda)]
+            for f in funcs:
+                ps = set(f.params())
+                # locals bound to an *element* of a collection: `v = X.pop()`, `v = X[i]`, `for v in X`, comprehension targets
+                elem_of = {}
+                for x in walk_no_nested(f.node):
+                    tg = src = None
+                    if isinstance(x, (ast.Assign, ast.NamedExpr)):
+                        t0 = x.targets[0] if isinstance(x, ast.Assign) and len(x.targets) == 1 else getattr(x, 'target', None)
+                        v = x.value
+                        if isinstance(t0, ast.Name):
+                            if isinstance(v, ast.Call) and isinstance(v.func, ast.Attribute) and v.func.attr == 'pop':
+                                tg, src = t0.id, v.func.value
+                            elif isinstance(v, ast.Subscript) and not isinstance(v.slice, ast.Slice):
+                                tg, src = t0.id, v.value
+                    elif isinstance(x, (ast.For, ast.comprehension)) and isinstance(x.target, ast.Name):
+                        tg, src = x.target.id, x.iter
+                    if tg is not None:
+                        elem_of.setdefault(tg, []).append(src)
+                s = set()
+                for n, r in self.direct_mutations(f):
+                    tgts = []
+                    if isinstance(n, ast.Call) and isinstance(n.func, ast.Attribute):
+                        tgts = [n.func.value]
+                    elif isinstance(n, (ast.Assign, ast.Delete)):
+                        tgts = [t.value for t in n.targets if isinstance(t, (ast.Attribute, ast.Subscript))]
+                    elif isinstance(n, (ast.AugAssign, ast.AnnAssign)) and isinstance(n.target, (ast.Attribute, ast.Subscript)):
+                        tgts = [n.target.value]
+                    for base in tgts:
+                        # the object that is changed: a name bound to an element of a collection derived from parameter q, or `q[i]` itself
+                        while isinstance(base, ast.Attribute):
+                            base = base.value
+                        if isinstance(base, ast.Subscript) and not isinstance(base.slice, ast.Slice):
+                            s |= self.expr_roots(f, base.value) & ps & r
+                        elif isinstance(base, ast.Name):
+                            for src in elem_of.get(base.id, []):
+                                s |= (self.expr_roots(f, src) | self.expr_elem_roots(f, src)) & ps & r
+                self._mut_elem[f.key] = s
+            changed = True
+            while changed:
+                changed = False
+                for f in funcs:
+                    cur = self._mut_elem[f.key]
+                    ps = set(f.params())
+                    for n, cal_, binding in self.call_edges(f):
+                        for q in list(self._mut_elem.get(cal_.key, ())):
+                            a = binding.get(q)
+                            if a is None:
+                                continue
+                            r = (self.expr_roots(f, a) | self.expr_elem_roots(f, a)) & ps
+                            if not r <= cur:
+                                cur |= r
+                                changed = True
+        return self._mut_elem.get(cal.key, set())
+
+    def expr_elem_roots(self, fi: FuncInfo, e, feasible=None) -> set:
+        """Parameters whose tree the *elements* of the collection `e` belong to."""
+        return self.derived(fi, feasible)[2](e, 'elem')
+
+    def arg_roots(self, fi: FuncInfo, cal: FuncInfo, q: str, a, feasible=None) -> set:
+        """Roots of the caller touched when callee `cal` mutates its parameter `q`, bound to argument `a`."""
+        r = self.expr_roots(fi, a, feasible)
+        if q in self.elem_mutating(cal):
+            r = r | self.expr_elem_roots(fi, a, feasible)
+        return r
+
     def call_edges(self, fi: FuncInfo):
         """[(call node, callee FuncInfo, {callee param: arg expr})]"""
         if fi.key in self._calls_cache:
@@ -277,7 +352,7 @@ class Effects:
                         a = binding.get(q)
                         if a is None:
                             continue
-                        r = self.expr_roots(fi, a)
+                        r = self.arg_roots(fi, cal, q, a)
                         if not r <= cur:
                             cur |= r
                             changed = True
@@ -318,7 +393,7 @@ class Effects:
                             for q in cm:
                                 a = binding.get(q)
                                 if a is not None:
-                                    out |= self.expr_roots(fi, a, feas)
+                                    out |= self.arg_roots(fi, cal, q, a, feas)
         self._mut_spec[key] = out
         return out
 
@@ -461,7 +536,7 @@ class Effects:
                     for cc in self.call_consts_all(cal, binding, disj):
                         for q in self.mutated_params(cal, cc):
                             a = binding.get(q)
-                            if a is not None and param in self.expr_roots(fi, a, feas):
+                            if a is not None and param in self.arg_roots(fi, cal, q, a, feas):
                                 hits.append(x)
                                 done = True
                                 break
